@@ -90,6 +90,7 @@ type MCursor struct {
 	Closed   bool
 	RootIdx  int
 	RootInit bool
+	Idx      int // position of (LastKey, LastVal) when it was returned (a hint, re-validated)
 }
 
 var (
@@ -374,6 +375,13 @@ func (t *MTxn) put(op string, d *MDBI, key, val []byte) error {
 	}
 	key, val = mCopy(key), mCopy(val)
 	t.Log = append(t.Log, MLogEntry{TxnID: t.ID, DBI: d.Name, Key: key, Val: val})
+	// fast path: greater than the last entry
+	if n := len(d.Keys); n > 0 && mEntryCmp(d, d.Keys[n-1], d.Vals[n-1], key, val) < 0 {
+		d.Keys = append(d.Keys, key)
+		d.Vals = append(d.Vals, val)
+		t.Dirty = true
+		return nil
+	}
 	i := 0
 	for ; i < len(d.Keys); i++ {
 		c := mEntryCmp(d, d.Keys[i], d.Vals[i], key, val)
@@ -491,6 +499,7 @@ func MTxnOpenCursor(txn *lmdb.Txn, dbi lmdb.DBI) (*lmdb.Cursor, error) {
 
 func (c *MCursor) ret(d *MDBI, i int) ([]byte, []byte, error) {
 	c.Has, c.AtEnd = true, false
+	c.Idx = i
 	c.LastKey, c.LastVal = d.Keys[i], d.Vals[i]
 	return d.Keys[i], d.Vals[i], nil
 }
@@ -542,6 +551,14 @@ func MCursorGet(cur *lmdb.Cursor, setkey, setval []byte, op uint) ([]byte, []byt
 				return c.end("mdb_cursor_get")
 			}
 			return c.ret(d, 0)
+		}
+		// fast path: the entry returned last is still where it was
+		if c.Idx < len(d.Keys) && len(c.LastKey) > 0 && len(d.Keys[c.Idx]) > 0 && &d.Keys[c.Idx][0] == &c.LastKey[0] &&
+			(d.Flags&mDupSort == 0 || (len(c.LastVal) > 0 && len(d.Vals[c.Idx]) > 0 && &d.Vals[c.Idx][0] == &c.LastVal[0])) {
+			if c.Idx+1 < len(d.Keys) {
+				return c.ret(d, c.Idx+1)
+			}
+			return c.end("mdb_cursor_get")
 		}
 		for i := range d.Keys {
 			if mEntryCmp(d, d.Keys[i], d.Vals[i], c.LastKey, c.LastVal) > 0 {
